@@ -34,12 +34,13 @@ type plantInfo struct {
 }
 
 type modelCase struct {
-	Spec   ref.Spec    `json:"spec"`
-	Patch  string      `json:"patch"`
-	Host   string      `json:"host"`
-	Origin string      `json:"origin"`
-	Plants []plantInfo `json:"plants,omitempty"`
-	Edits  []string    `json:"edits,omitempty"`
+	Spec     ref.Spec    `json:"spec"`
+	Patch    string      `json:"patch"`
+	Host     string      `json:"host"`
+	Origin   string      `json:"origin"`
+	HostName string      `json:"host_name,omitempty"`
+	Plants   []plantInfo `json:"plants,omitempty"`
+	Edits    []string    `json:"edits,omitempty"`
 }
 
 // verdict is the outcome of evaluating a model case.
@@ -255,6 +256,7 @@ func loadHosts() []*hostInfo {
 type modelOpts struct {
 	Mine                   gen.MineOpts
 	MaxHostLines           int
+	FixedHost              string      // draw the pattern from this host (by name) instead of a drawn one
 	Kinds                  []ref.PKind // drawn uniformly
 	MinPlants, MaxPlants   int
 	MinMutants, MaxMutants int
@@ -273,6 +275,13 @@ func genModelCase(t *rapid.T, o modelOpts) (cs *modelCase, why string) {
 		}
 	}
 	h := pool[rapid.IntRange(0, len(pool)-1).Draw(t, "host")]
+	if o.FixedHost != "" {
+		for _, x := range hosts {
+			if x.name == o.FixedHost {
+				h = x
+			}
+		}
+	}
 	if rapid.IntRange(0, 7).Draw(t, "extraHost") == 0 {
 		// the hand-written hosts carry constructs that are rare in the sample
 		var extras []*hostInfo
@@ -316,7 +325,7 @@ func genModelCase(t *rapid.T, o modelOpts) (cs *modelCase, why string) {
 			return nil, "layout"
 		}
 	}
-	cs = &modelCase{Spec: *r.Spec, Patch: r.Patch, Origin: h.name + ":" + root.Slot, Edits: m.Edits}
+	cs = &modelCase{Spec: *r.Spec, Patch: r.Patch, Origin: h.name + ":" + root.Slot, Edits: m.Edits, HostName: h.name}
 
 	// Plants.
 	nInst := rapid.IntRange(o.MinPlants, o.MaxPlants).Draw(t, "nInst")
